@@ -119,9 +119,14 @@ func (m *MonC09) AfterBlock(o *BlockOutcome) {
 				// "a rate below one never drives a total to zero": the deduction is skipped entirely
 				rep.Class("C09.floor-at-one")
 			}
-			// near the threshold (product within the budget of 1) either outcome is within the arithmetic
-			if new(big.Float).Sub(prod, one).Abs(new(big.Float).Sub(prod, one)).Cmp(new(big.Float).SetInt(tol)) <= 0 && pa.TotalTokens.Equal(a.TotalTokens) {
-				want = a.TotalTokens
+			// near the threshold (product within the budget of 1) either outcome - skipped, or reduced to the
+			// floor of the 18-digit product, at least 1 - is within the arithmetic's resolution
+			if d1 := new(big.Float).Sub(prod, one); d1.Abs(d1).Cmp(new(big.Float).SetInt(tol)) <= 0 {
+				if pa.TotalTokens.Equal(a.TotalTokens) {
+					want = a.TotalTokens
+				} else if pa.TotalTokens.IsPositive() && pa.TotalTokens.BigInt().Cmp(new(big.Int).Add(tol, big.NewInt(1))) <= 0 {
+					want = pa.TotalTokens
+				}
 			}
 		}
 		diff := new(big.Int).Sub(pa.TotalTokens.BigInt(), want.BigInt())
